@@ -20,7 +20,7 @@ THEOREMS = ["GmqttVerif.Broker.will_on_unregister",
             "GmqttVerif.WillTimer.code_shape", "GmqttVerif.WillTimer.code_is_repaired",
             "GmqttVerif.WillTimer.no_orphan_will_code", "GmqttVerif.WillTimer.will_published_only_if_due_code"]
 EXTRA_MODULES = ["GmqttVerif.Properties.C08Timer"]
-NEEDS_FACTS = True
+NEEDS_FACTS = ["WillTimer"]
 COMPS = ["broker"]
 
 def extra(r):
@@ -29,7 +29,7 @@ def extra(r):
     (`as_is_resumed_will_published`) and a widened-window run of the real code (findings/F16-*.md) both exhibit."""
     import os, re
     try:
-        facts = open(os.path.join(core.LEAN, "GmqttVerif", "Generated", "Facts.lean")).read()
+        facts = open(os.path.join(core.LEAN, "GmqttVerif", "Generated", "WillTimer.lean")).read()
     except OSError:
         return
     m = re.search(r"def willGoroutineSteps : List String :=\s*\n\s*(\[.*\])", facts)
